@@ -15,6 +15,7 @@ import (
 	"net/rpc"
 	"os"
 	"sort"
+	"strconv"
 	"strings"
 	"sync"
 	"sync/atomic"
@@ -321,10 +322,19 @@ func (im *impl) handle(c Cmd) (r Reply, err error) {
 		}
 		sort.Strings(r.List)
 	case "nextid":
-		if im.grpcb != nil {
-			r.N = int(im.grpcb.NextId())
-		} else if im.mux != nil {
-			r.N = int(im.mux.NextId())
+		// c.N > 1: a burst of allocations, all returned
+		n := max(c.N, 1)
+		for i := 0; i < n; i++ {
+			var id uint32
+			if im.grpcb != nil {
+				id = im.grpcb.NextId()
+			} else if im.mux != nil {
+				id = im.mux.NextId()
+			}
+			r.N = int(id)
+			if n > 1 {
+				r.List = append(r.List, strconv.Itoa(int(id)))
+			}
 		}
 	case "broker_accept":
 		// Accept id in the background and serve a tag service on it. The reply
